@@ -60,4 +60,49 @@ theorem step_isRunning_out (c : Cfg) (s : St) {i : Nat} {a : PObj} (ha : s.ps.ob
     (step c s (.c (.isRunning i))).2 = .bool (isRunningO c s.kern s.ps a).2.2 := by
   rw [step_method c s (call := .isRunning i) rfl ha rfl]; rfl
 
+theorem step_status_out (c : Cfg) (s : St) {i : Nat} {a : PObj} (ha : s.ps.objs[i]? = some a) :
+    (step c s (.c (.status i))).2 = .status (statusWord s.kern a) := by
+  simp [step, ha]
+
+theorem ownZombie_of_find {k : Kernel} (hk : KInv k) {o : PObj} {x : Inst} (hf : k.find o.pid = some x)
+    (hs : x.start = o.ghost) : ownZombie k o = some x.zombie := by
+  unfold ownZombie
+  have hxm := List.mem_of_find?_eq_some hf
+  have hxp : x.pid = o.pid := by simpa using List.find?_some hf
+  cases hy : k.procs.find? (fun y => y.pid == o.pid && y.start == o.ghost) with
+  | none =>
+    have := List.find?_eq_none.1 hy x hxm
+    simp [hxp, hs] at this
+  | some y =>
+    have hym := List.mem_of_find?_eq_some hy
+    have hyp := List.find?_some hy
+    simp only [Bool.and_eq_true, beq_iff_eq] at hyp
+    have : y = x := mem_eq_of_nodup_pid hk.uniq hym hxm (hyp.1.trans hxp.symm)
+    simp [this]
+
+theorem step_processIter (c : Cfg) (s : St) :
+    step c s (.c .processIter)
+      = ({ s with ps := (processIter c s.kern s.ps).1 }, .procs (processIter c s.kern s.ps).2) := rfl
+
+/-- the status word `str(p)` may show for an object in an invariant state -/
+theorem statusWord_spec {clk : Nat} {k : Kernel} {B : Nat} {o : PObj} (hk : KInv k) (hok : ObjOK clk k B o) :
+    ((statusWord k o = .terminated ∨ statusWord k o = .reusedTerminated) → ¬ Listed k o)
+    ∧ (Listed k o → ∃ x, k.find o.pid = some x ∧ x.start = o.ghost
+        ∧ statusWord k o = if x.zombie then .zombie else .alive) := by
+  rw [listed_iff_owner hk]
+  unfold statusWord
+  cases hr : o.reused with
+  | true =>
+    have hd := hok.dead (by simp [hr])
+    simp only [if_true]
+    exact ⟨fun _ => hd, fun hl => absurd hl hd⟩
+  | false =>
+    simp only [Bool.false_eq_true, if_false]
+    cases hf : k.find o.pid with
+    | none => simp [Kernel.owner, hf]
+    | some x =>
+      simp only [Kernel.owner, hf, Option.map_some, Option.some.injEq]
+      refine ⟨?_, fun hl => ⟨x, rfl, hl, rfl⟩⟩
+      rintro (h | h) <;> split at h <;> cases h
+
 end Psutil.C01
